@@ -465,8 +465,10 @@ func (s *syncNode) stepBatch(peerName string, n int) {
 	if s.pumpErr != nil {
 		panic(fmt.Sprintf("driver: wire error: %v", s.pumpErr))
 	}
-	if time.Since(t0) > 15*time.Second {
-		fmt.Printf("SLOW batch %s %d-%d took %v\n", peerName, from, to, time.Since(t0))
+	if time.Since(t0) > 12*time.Second {
+		// processBatch waits 20 s (real time) for every block: on a starved machine a time-out may have fired although the answer
+		// was on its way, and what the applier saw is no longer what the wire log says.  The scenario is marked and left out.
+		s.out.Emit(tr.M{"ev": "Unreliable", "sid": s.sid, "why": fmt.Sprintf("batch %d-%d took %v", from, to, time.Since(t0))})
 	}
 	for _, rec := range s.served {
 		s.out.Emit(tr.M{"ev": "Serve", "sid": s.sid, "peer": rec.Peer, "from": s.rel(rec.From), "to": s.rel(rec.To), "blocks": rec.Blocks})
@@ -559,6 +561,20 @@ type canonObs struct {
 	View       string `json:"view"`
 	Index      string `json:"index"`   // digest of the canonical index up to the head
 	DurHead    int    `json:"durHead"` // the head a restarted node would read
+	Live       string `json:"live"`    // what the node's components read from the live state all the time (engine, mempool, API)
+}
+
+// liveReads goes through the LIVE state objects as the consensus engine, the mempool and the API do on a running node
+// (epoch, last snapshot, fee, balances, nonces, identity states), so that whatever the state keeps cached is in use.
+func liveReads(w *sim.World, n *sim.Node) string {
+	st := n.App.State
+	var b bytes.Buffer
+	fmt.Fprintf(&b, "%d/%d/%d/%v/%d;", st.Epoch(), st.LastSnapshot(), st.ValidationPeriod(), st.FeePerGas(), st.NextValidationTime().Unix())
+	for _, k := range []int{0, 1, 2, 3, 6, ownKey, 8, 10} {
+		a := w.Addrs[k]
+		fmt.Fprintf(&b, "%d:%v/%d/%d/%d/%v;", k, st.GetBalance(a), st.GetNonce(a), st.GetEpoch(a), st.GetIdentityState(a), st.GetStakeBalance(a))
+	}
+	return dig(b.Bytes())
 }
 
 type obsT struct {
@@ -630,7 +646,7 @@ func canonOf(w *sim.World, n *sim.Node, base uint64) canonObs {
 	lir := n.App.IdentityState.Root()
 	o := canonObs{Head: int(h.Height()) - int(base), HeadHash: hx(h.Hash().Bytes()), Root: hx(h.Root().Bytes()), IdRoot: hx(h.IdentityRoot().Bytes()),
 		LiveRoot: hx(lr[:]), LiveIdRoot: hx(lir[:]), StateVer: int(n.App.State.Version()) - int(base), IdVer: int(n.App.IdentityState.Version()) - int(base),
-		View: viewDigest(w, n.App.ValidatorsCache)}
+		View: viewDigest(w, n.App.ValidatorsCache), Live: liveReads(w, n)}
 	var b bytes.Buffer
 	for x := uint64(1); x <= h.Height(); x++ {
 		if hd := n.Chain.GetBlockHeaderByHeight(x); hd != nil {
